@@ -15,6 +15,27 @@ CHECKS = {
         "Exhaustive only within the MC bounds; real-size files are covered by recorded executions.",
    technique="TLA+ spec CharCategory + TLC model checking; S->I replay of all TLC behaviours; I->S trace validation (Trace_CharCategory)",
    design="4 C17"),
+ "C08": dict(
+   category="model_checking",
+   text="InputBuffer.tla transcribes resolve_edits/add_replace at byte level; TLC checks MapOK (monotone, anchored, boundary-preserving, unreplaced "
+        "characters map to themselves) for all texts <=3 chars over 1/2/3/4-byte characters and all stacks of <=3 batches of <=2 well-formed edits; every "
+        "enumerated edit history is replayed on the real InputBuffer (all three ReplaceTgt variants) and through MorphemeList accessors (begin/end/begin_c/end_c/"
+        "surface compared with TLC's values); whole tokenizations under 7 plugin stacks are trace-validated: every committed batch must equal the spec's "
+        "Commit and every morpheme's code-point offsets must equal CodePointsBefore of its byte offsets.",
+   note="Trusted: TLC, JSON bridge, hook H1 (logs pending edits before and text/map after the commit). Exhaustive within the MC bounds only; long texts by recorded executions.",
+   technique="TLA+ spec InputBuffer + TLC model checking; S->I replay of all TLC edit histories; I->S trace validation (Trace_InputBuffer, Check=C08)",
+   design="4 C08"),
+ "C01": dict(
+   category="model_checking",
+   text="On InputBuffer.tla TLC checks that EVERY tiling of the rewritten text maps to a byte partition of the original whose surfaces concatenate to it "
+        "(AnyTilingPartitions, a consequence of MapOK) for all bounded edit histories; the histories are replayed on the real buffer and single-character "
+        "morphemes are read back through the public accessors; whole tokenizations (fixture sentences + random structured Unicode, 7 plugin stacks incl. reordered "
+        "and three-plugin stacks, modes A/B/C) are trace-validated: plugin edit batches must be well-formed and reproduce the logged text/map, and the returned "
+        "morphemes must partition the original on character boundaries with surface = original slice.",
+   note="Trusted: TLC, JSON bridge, hook H1. Sub-token ranges of A/B splits and joined tokens are covered through the end-to-end partition check on recorded runs; "
+        "their dedicated models are C09/C14.",
+   technique="TLA+ spec InputBuffer (AnyTilingPartitions) + TLC; S->I replay; I->S trace validation (Trace_InputBuffer, Check=C01)",
+   design="4 C01"),
 }
 
 NOT_YET = "no check registered yet in this revision (work in progress; see DESIGN.md section 8 build order)"
